@@ -326,3 +326,17 @@ Theorem C01_image_solve_places :
 Proof. exact (@image_solve_places). Qed.
 Print Assumptions C01_image_solve_places.
 
+Theorem C01_ready_made_then_keyword :
+  forall (l : lensR) (kind : gkind) (R0 k : T ROps) (c : list (T ROps)) 
+         (z t : T ROps) (m : matspec (T ROps)) (stop refl : bool) (a : aspec) 
+         (l1 : lensR),
+       (1 <= Datatypes.length (surfs l))%nat ->
+       step l (AddReady (O:=ROps) (Z.of_nat (Datatypes.length (surfs l))) kind R0 k c z t m stop refl) =
+       Some l1 ->
+       positions l1 = positions l ++ z :: nil /\
+       last_t l1 = t /\
+       (exists l2 : lensR,
+          step l1 (add_op (Datatypes.length (surfs l1)) a) = Some l2 /\
+          positions l2 = positions l ++ z :: (z + t)%R :: nil).
+Proof. exact (@ready_made_then_keyword). Qed.
+Print Assumptions C01_ready_made_then_keyword.
